@@ -6,7 +6,9 @@ into disjoint or overlapping private-use character ranges, (a') lists of differe
 equal units-per-em and flavour, each with its own private-use block, (b) fontBuilder/feaLib generated
 TrueType and CFF families (vmon/gen/c18_fonts.py) with disjoint or overlapping alphabets,
 identical and different duplicate glyphs, clashing glyph names, optional GSUB/GPOS/GDEF under
-different language systems; list orders permuted.  The real `Merger.merge` runs under monitors
+different language systems (including a script of the font's own with a REQUIRED feature at FeatureList
+index 0 or later), glyph names that already carry the merger's own ".N" suffixes, CFF inputs subroutinised
+by hand (global only / local only / both); list orders permuted; chained merges merge(merge(A,B),C,...).  The real `Merger.merge` runs under monitors
 on merge, computeMegaGlyphOrder, computeMegaCmap, every table `merge` method, layoutPre/PostMerge,
 mergeScriptRecords, mapLookups/mapFeatures.
 
@@ -33,7 +35,7 @@ RULE = ("a case is one ordered list of 2-4 compatible fonts (generated family, r
         "signature: flavour, overlap mode, name clash, number of fonts, feature tags per font, order)")
 ASSUMPTIONS = [
     "HarfBuzz 12.1 is the trusted shaper/rasteriser; outline tolerance 0.02 units, advances and shaping results exact",
-    "merger preconditions hold by construction: equal unitsPerEm, one outline flavour per call, no CID-keyed CFF, no required features, no variable/colour/AAT/kern tables (the merger drops tables it cannot merge)",
+    "merger preconditions hold by construction: equal unitsPerEm, one outline flavour per call, no CID-keyed CFF, required features only in language systems of a script no other input defines (the merger asserts otherwise), no variable/colour/AAT/kern tables (the merger drops tables it cannot merge)",
     "an input's character set is what the merger documents it reads: its format-12 Unicode subtable if present, else its format-4 Unicode subtable",
     "shaping is compared only over characters exclusive to one input whose glyphs take no part in the merger's duplicate handling, with a script (and language) that the input itself defines in each of its layout tables, and only if the input alone and the merged font agree on having GSUB, GPOS and GDEF glyph classes at all (HarfBuzz falls back to mark positioning / class synthesis otherwise)",
     "glyph identity across files: merged name expected = the name computeMegaGlyphOrder issued for (input, glyph id); cross-checked by outline and advance through HarfBuzz",
@@ -44,7 +46,7 @@ REQUIRED_MONITORS = ["Merger.merge", "computeMegaGlyphOrder", "computeMegaCmap",
                      "LookupList.mapLookups", "ScriptList.mapFeatures"]
 CASE_TIMEOUT = 240
 MANIFEST = {
-    "text": "Exploration: ordered lists of 2-4 compatible fonts (corpus fonts re-cut by the subsetter into disjoint/overlapping private-use ranges; lists of different corpus fonts with equal upem and flavour, each given its own private-use block; fontBuilder+feaLib generated TrueType and CFF families with identical/different duplicate glyphs, clashing glyph names, with and without GSUB/GPOS/GDEF under different language systems; orders permuted) are merged through the real Merger under monitors on merge, computeMegaGlyphOrder, computeMegaCmap, every table merge method and the layout pre/post merge passes. The saved result is judged by HarfBuzz: every character's merged glyph has the outline and advance it had in the first input that maps it, .notdef is the first font's, texts over characters exclusive to one input shape as with that input alone; glyph names are unique (in memory, and in the saved post/CFF names read by FreeType); a struct-level reference sweep checks ids and indices. Tests cannot settle this because merge_test checks the policies on small dictionaries and one integration case and never renders the result.",
+    "text": "Exploration: ordered lists of 2-4 compatible fonts (corpus fonts re-cut by the subsetter into disjoint/overlapping private-use ranges; lists of different corpus fonts with equal upem and flavour, each given its own private-use block; fontBuilder+feaLib generated TrueType and CFF families with identical/different duplicate glyphs, clashing glyph names (also names already of the form X.N), hand-subroutinised CFF (global/local/both), required features in a script of the font's own, with and without GSUB/GPOS/GDEF under different language systems; orders permuted; chained merges of a merge result with further fonts) are merged through the real Merger under monitors on merge, computeMegaGlyphOrder, computeMegaCmap, every table merge method and the layout pre/post merge passes. The saved result is judged by HarfBuzz: every character's merged glyph has the outline and advance it had in the first input that maps it, .notdef is the first font's, texts over characters exclusive to one input shape as with that input alone; glyph names are unique (in memory, and in the saved post/CFF names read by FreeType); a struct-level reference sweep checks ids and indices. Tests cannot settle this because merge_test checks the policies on small dictionaries and one integration case and never renders the result.",
     "note": "Trusted base: HarfBuzz 12.1, FreeType glyph names, vmon/oracle/c07_refsweep.py. Preconditions are the merger's documented limits (equal upem, one flavour, format 4/12 Unicode cmaps, no CID CFF); overlapping characters are only compared glyph-wise (first input wins), shaping only over exclusive characters with a script the input defines itself.",
     "technique": "monitors on the real merger functions; differential rendering/shaping through HarfBuzz against each input; generated and re-cut input families",
     "design_ref": "DESIGN.md §4 C18",
@@ -304,8 +306,9 @@ def _gen_inputs(case, rnd, ctx):
     specs = [fam["fonts"][i] for i in order]
     desc = {"flavour": "ttf" if fam["ttf"] else "cff", "upem": fam["upem"], "overlap": fam["overlap"], "clash": fam["clash"],
             "order": order, "fonts": [{"glyphs": [(g["name"], ("U+%X" % g["cp"]) if g["cp"] else None) for g in sp["glyphs"]],
-                                       "fea": sp["fea"]} for sp in specs]}
-    sig = "gen|%s|%s|%s|%s" % (desc["flavour"], fam["overlap"], fam["clash"], ";".join(",".join(sp["tags"]) or "-" for sp in specs))
+                                       "fea": sp["fea"], "cff_subrs": sp.get("subr"), "required": sp.get("required")} for sp in specs]}
+    sig = "gen|%s|%s|%s|%s" % (desc["flavour"], fam["overlap"], fam["clash"],
+                               ";".join((",".join(sp["tags"]) or "-") + ("/" + sp["subr"] if sp.get("subr") else "") for sp in specs))
     return outs, desc, sig
 
 
@@ -353,6 +356,24 @@ def _run(case, ctx):
     if got is None:
         return
     inputs, desc, sig = got
+    chain = len(inputs) >= 3 and case["kind"] in ("gen", "cut") and rnd.random() < 0.4
+    if not chain:
+        _judge(case, ctx, rnd, quick, inputs, desc, sig, "")
+        return
+    # chained merge: merge(merge(A, B), C, ...) -- the intermediate result carries the merger's own "X.N" names
+    ctx.note("chained merges")
+    desc1 = dict(desc, stage="first merge of a chain (inputs 0,1)")
+    mbytes = _judge(case, ctx, rnd, quick, inputs[:2], desc1, sig + "|chain1", "a")
+    if mbytes is None:
+        return
+    desc2 = dict(desc, stage="second merge of a chain: [merge(inputs 0,1)] + inputs 2..")
+    _judge(case, ctx, rnd, quick, [mbytes] + inputs[2:], desc2, sig + "|chain2", "b")
+
+
+def _judge(case, ctx, rnd, quick, inputs, desc, sig, stage):
+    """Merge `inputs` (font bytes, in order) through the real Merger and judge the saved result. -> merged bytes"""
+    from fontTools.merge import Merger
+
     scratch = os.path.join(os.environ["VMON_SCRATCH"], "c18")
     os.makedirs(scratch, exist_ok=True)
     hs, sweeps, cmaps, flav = [], [], [], []
@@ -360,7 +381,7 @@ def _run(case, ctx):
     for i, data in enumerate(inputs):
         T = RS.directory(data)
         flav.append("glyf" if "glyf" in T else "CFF")
-        p = os.path.join(scratch, "in%d.%s" % (i, "ttf" if "glyf" in T else "otf"))
+        p = os.path.join(scratch, "in%s%d.%s" % (stage, i, "ttf" if "glyf" in T else "otf"))
         with open(p, "wb") as fh:
             fh.write(data)
         paths.append(p)
@@ -518,6 +539,7 @@ def _run(case, ctx):
         ctx.sample = {"case": case["id"], "inputs": {k: v for k, v in desc.items() if k != "fonts"}, "merged_glyphs": len(morder),
                       "characters_compared": len(sample), "shared_characters": overlapping, "layout_active_texts": layout_active,
                       "tables": m["tables"]}
+    return mbytes
 
 
 def _stored_names(data, n):
@@ -552,6 +574,12 @@ def _shape_input(ctx, rnd, i, excl, hi, hm, Si, ren, morder, bad, quick, flavour
         return 0
     tags = sorted(set(Si.features.get("GSUB", [])) | set(Si.features.get("GPOS", [])))
     configs = []
+    # language systems of this input that carry a REQUIRED feature are shaped first
+    req = sorted({(sc, lg) for t in tabs for sc, lg, _fi in Si.required.get(t, []) if sc in cand})
+    for sc, lg in req[:2]:
+        if all(lg in Si.scripts.get(t, {}).get(sc, []) for t in tabs):
+            configs.append((sc, lg, {t: 1 for t in tags if rnd.random() < 0.5}))
+            ctx.note("shaping configs with a required feature")
     for _ in range(2 if quick else 3):
         script = rnd.choice(sorted(cand))
         lang = "dflt"
